@@ -2,6 +2,7 @@
 use crate::sess::{self, Close, Ev};
 use crate::sessgen::*;
 use crate::util::*;
+use glonax::core::{Engine, EngineState, Object};
 
 fn garbage(rng: &mut Rng, len: usize) -> Vec<u8> {
     (0..len)
@@ -13,6 +14,28 @@ fn garbage(rng: &mut Rng, len: usize) -> Vec<u8> {
             _ => rng.byte(),
         })
         .collect()
+}
+
+/// A client that stalls inside a frame while its session's signal subscription is overrun, then dies.
+pub fn stalled(out: &mut Out, inst: &str) {
+    // a client that stalls INSIDE a frame (header and part of the payload, the rest later) while signals are published:
+    // the session sits in its payload read and its signal subscription is overrun (more than the queue holds); whatever
+    // the session does about that, it still ends through its normal termination path (failsafe included)
+    for flags in [0x11u8, 0x13, 0x15, 0x17, 0x10, 0x01, 0x00] {
+        for k in [0usize, 1, 15, 16, 17, 18, 40] {
+            for cut in [1usize, 2, 5] {
+                let motion = sess::frame(0x20, &[0x10, 1, 0, 0, 0x12, 0x34]);
+                let mut evs = vec![Ev::Bytes(session_frame(flags, "demo").bytes), Ev::Bytes(motion[..10 + cut].to_vec())];
+                for i in 0..k {
+                    evs.push(Ev::Signal(Object::Engine(Engine { driver_demand: 0, actual_engine: 0, rpm: 800 + i as u16, state: EngineState::Request })));
+                }
+                evs.push(Ev::Bytes(motion[10 + cut..].to_vec()));
+                evs.push(Ev::Close(if k % 2 == 0 { Close::Eof } else { Close::Reset }));
+                sess::run_case(out, inst, "sess", &evs, true);
+                out.count("stalled inside a frame while signals are published");
+            }
+        }
+    }
 }
 
 pub fn run(out: &mut Out, tier: &str, rng: &mut Rng) {
@@ -116,6 +139,7 @@ pub fn run(out: &mut Out, tier: &str, rng: &mut Rng) {
         sess::run_case(out, &inst, "sess", &[Ev::Bytes(s), Ev::Close(Close::Reset)], true);
         out.count("type-sweep");
     }
+    stalled(out, &inst);
     // mostly valid streams with a corrupted byte somewhere, and pure garbage
     let n = if thorough { 20_000 } else { 2_000 };
     for i in 0..n {
